@@ -142,6 +142,43 @@ fn word_name(w: &[isize]) -> String {
         .collect()
 }
 
+/// a relator on the pair of generators (i, j): the commutator (1 in 3) or the Coxeter-like
+/// (ij)^m with m = 2..5
+fn pair_relator(rng: &mut Rng, i: isize, j: isize) -> Vec<isize> {
+    if rng.chance(1, 3) {
+        comm(i, j)
+    } else {
+        let m = 2 + rng.below(4);
+        pw(&[i, j], m)
+    }
+}
+
+/// sparse presentation on `g` generators: the given short relators, `np` pair relators on
+/// distinct random pairs, `nw` random words of length 2-5, in shuffled order
+fn sparse_presentation(rng: &mut Rng, g: usize, short: &[Vec<isize>], np: usize, nw: usize) -> Vec<Vec<isize>> {
+    let mut rels: Vec<Vec<isize>> = short.to_vec();
+    let mut pairs = vec![];
+    for i in 1..=g as isize {
+        for j in (i + 1)..=g as isize {
+            pairs.push((i, j));
+        }
+    }
+    rng.shuffle(&mut pairs);
+    for &(i, j) in pairs.iter().take(np) {
+        rels.push(pair_relator(rng, i, j));
+    }
+    for _ in 0..nw {
+        let l = 2 + rng.below(4);
+        rels.push(random_relator(rng, g, l));
+    }
+    rng.shuffle(&mut rels);
+    rels
+}
+
+fn pres_name(rels: &[Vec<isize>]) -> String {
+    rels.iter().map(|w| word_name(w)).collect::<Vec<_>>().join(",")
+}
+
 fn main() {
     let mut ctx = Ctx::from_args();
     let th = ctx.thorough();
@@ -155,6 +192,75 @@ fn main() {
     case(&mut ctx, "Z4+killed-a", 2, &[vec![1], vec![2, 2, 2, 2]], 4, "regress");
     case(&mut ctx, "Z4+killed-b", 2, &[vec![1, 1, 1, 1], vec![2]], 4, "regress");
     case(&mut ctx, "c=1,c=a^-1b^2", 3, &[vec![3], vec![3, -1, 2, 2]], 5, "regress");
+
+    // C12-m9 (round-4 seeded change: the stand-in for an undefined entry of the re-based table in
+    // compare_renumbered_from was n-1 instead of n; a partial table whose row 0 refers to the
+    // last row several times was pruned although its completion is canonical): the witness and
+    // its three-relator core
+    if std::env::var("VERIF_C12_NO_WITNESS").is_err() {
+        let w = vec![pw(&[4], 2), comm(1, 2), pw(&[1, 3], 3), pw(&[2, 3], 5), pw(&[3, 4], 3)];
+        case(&mut ctx, "d^2,[a,b],(ac)^3,(bc)^5,(cd)^3", 4, &w, 5, "regress");
+        case(&mut ctx, "d^2,[a,b],(ac)^3", 4, &w[..3], 5, "regress");
+    }
+
+    // (1d) sparse presentations on >= 4 generators with one short relator, as a rule on the LAST
+    //      generator (an involution d^2: every definition 0.d = m at once fills the later
+    //      columns d^-1 of rows 0 and m while earlier columns of row m stay undefined, so the
+    //      canonicity test compares defined entries of row 0 that refer to the highest row with
+    //      undefined entries of the re-based copy — and few relators keep those entries
+    //      undefined for long and leave thousands of tables to complete them): d^2 plus 2-4 pair
+    //      relators (commutators and Coxeter-like (xy)^m on random pairs) and possibly a random
+    //      word, at index 5 on 4 generators and index 4 on 5 generators; the same with the short
+    //      relator elsewhere or of another shape (a^2, b^2, c^2, d^3, d^4, d = x^±1 redundant,
+    //      d killed, c^2 and d^2); 3 generators at index 6.  The index is lowered until at most
+    //      12000 tables.  Census clauses up to the brute-force limit (index 4 on 4 generators);
+    //      beyond it the verdict is the comparison with the proved model's sequence.
+    {
+        let mut rng = ctx.rng(1203);
+        let m = if th { 5 } else { 1 };
+        // (generators, index, which short relators, pair relators, random words, how many)
+        let plan: Vec<(usize, usize, usize, usize, usize, usize)> = vec![
+            (4, 5, 0, 3, 0, 20 * m),
+            (4, 5, 0, 4, 0, 8 * m),
+            (4, 5, 0, 2, 0, 4 * m),
+            (4, 5, 0, 2, 1, 6 * m),
+            (4, 5, 0, 1, 1, if th { 20 } else { 0 }),
+            (5, 4, 0, 3, 0, 4 * m),
+            (5, 4, 0, 4, 0, 4 * m),
+            (5, 5, 0, 5, 0, if th { 8 } else { 0 }),
+            (4, 5, 1, 3, 0, 9 * m),
+            (3, 6, 0, 1, 0, 2 * m),
+        ];
+        for (g, k, which, np, nw, count) in plan {
+            let d = g as isize;
+            for i in 0..count {
+                let o = 1 + rng.below(g - 1) as isize;
+                let short: Vec<Vec<isize>> = if which == 0 {
+                    vec![vec![d, d]]
+                } else {
+                    match i % 9 {
+                        0 => vec![vec![1, 1]],
+                        1 => vec![vec![2, 2]],
+                        2 => vec![vec![3, 3]],
+                        3 => vec![vec![d, d, d]],
+                        4 => vec![vec![d, d, d, d]],
+                        5 => vec![vec![d, o]],
+                        6 => vec![vec![d, -o]],
+                        7 => vec![vec![d]],
+                        _ => vec![vec![d - 1, d - 1], vec![d, d]],
+                    }
+                };
+                let rels = sparse_presentation(&mut rng, g, &short, np, nw);
+                let kk = if ctx.peek_mine() { capped_k(g, &rels, k, 12000) } else { k };
+                let nm = format!("sparse-{}", pres_name(&rels));
+                if g <= 4 {
+                    case(&mut ctx, &nm, g, &rels, kk, "sparse-late-short-relator");
+                } else {
+                    case_nc(&mut ctx, &nm, g, &rels, kk, "sparse-late-short-relator");
+                }
+            }
+        }
+    }
 
     // (1a) trivial and redundant generators: every base presentation with one extra
     //      generator inserted at every position and killed by a length-1 relator (also one
